@@ -10,8 +10,8 @@ RULE = ('grammar-generated well-formed requests (5 methods, origin-form target, 
         'names / non-ASCII values / Cookie / X-Forwarded-For lists with and without spaces and unparsable entries, '
         'Content-Length bodies 0..64 KiB) x read plans (all-at-once, byte-wise, every single split point for a subset, '
         'random); corpus first; non-trivial = has >= 2 headers or a body or a forwarded list')
-ASSUMPTIONS = ['IpAddr::from_str is modelled for IPv4 dotted quads only (IPv6 entries are exercised against the Python '
-               'ipaddress oracle only)', 'the scripted reader never returns an I/O error other than EOF']
+ASSUMPTIONS = ['IpAddr::from_str is modelled for IPv4 dotted quads only in this check (IPv6 X-Forwarded-For entries are exercised '
+               'by C19, whose model address parser is extended by a table computed with Python ipaddress)', 'the scripted reader never returns an I/O error other than EOF']
 NEEDS_TOKIO = True
 
 
